@@ -15,6 +15,10 @@ ASSUME FieldNormId(0) = 0 /\ FieldNormId(40) = 40 /\ FieldNormId(41) = 40 /\ Fie
        /\ FieldNormId(2147483647) = 255 /\ FieldNormId(5) = 5
 ASSUME \A i \in 1..255 : FieldNormTable[i] < FieldNormTable[i + 1]
 ASSUME \A i \in 1..256 : FieldNormId(FieldNormTable[i]) = i - 1
+\* an over-long token is dropped: no posting, no position consumed, not counted; one of exactly MaxTokenLen is kept
+ExLong == << << <<"a", 0, 1>>, <<"blob", 1, 1, MaxTokenLen + 1>>, <<"b", 2, 1>> >>, << <<"blob", 0, 1, 70000>> >>, << <<"edge", 0, 1, MaxTokenLen>> >> >>
+ASSUME NumTokens(ExLong) = 3 /\ Keys(Toks(ExLong)) = {"a", "b", "edge"} /\ PositionsOf(Toks(ExLong), "b") = <<2>>
+       /\ PositionsOf(Toks(ExLong), "edge") = <<5>>
 ASSUME FacetToks(<<"a", "b">>) = << <<"/", 0>>, <<"/a", 0>>, <<"/a/b", 0>> >>
 ASSUME LexLess(<<>>, <<0>>) /\ LexLess(<<1, 2>>, <<1, 3>>) /\ ~LexLess(<<2>>, <<1, 9>>) /\ ~LexLess(<<1>>, <<1>>) /\ LexLess(<<1>>, <<1, 0>>)
 
